@@ -19,26 +19,26 @@ TEXT = {
          "Real Conn/Acceptor/Initiator/DefaultHandler run against scripted peers whose streams are cut at framing-sensitive offsets and interleaved under a seeded scheduler; delivered = sent is checked as a prefix invariant at every settle and as equality at the end, per connection, at two observation points; outbound hand-offs are checked whole/once/ordered with a stalled reader.",
          "sampling of partitions and schedules; simnet models a byte stream (no reordering, arbitrary segmentation)."),
  "C05": ("exploration", "seeded scheduler over concurrent senders, timers and inbound-triggered replies; wire-side sequence oracle",
-         "1-8 sender tasks, timer heartbeats and inbound-triggered echoes/Rejects interleave under the seeded scheduler with injected delays in store and handlers; the peer-side capture must be numbered start+k with correct identifiers and send times, also across a second session over the same counter store.",
+         "1-8 sender tasks (some reusing one message object), timer heartbeats and inbound-triggered echoes/Rejects interleave under the seeded scheduler with injected delays in store and handlers; the peer-side capture must be numbered start+k with correct identifiers and send times, also across a second session over the same counter store.",
          "preemption at synchronisation points only; no refusing handler / failing store (precondition)."),
  "C06": ("exploration", "generated inbound histories checked step by step against an executable logon reference model",
-         "Histories over 12 Logon variants and every other message class, local sends, logouts and idle time are replayed against both roles; IsLogged, EventLogon and the Logon/Reject replies are compared with the model after every step.",
+         "Histories over 12 Logon variants (12 kinds of non-numeric interval text) and every other message class, local sends, logouts and idle time are replayed against both roles; IsLogged, EventLogon and the Logon/Reject replies are compared with the model after every step.",
          "the model demands acceptance only for the first acceptable Logon of a connection; later re-logons are checked in the only-if direction."),
  "C07": ("exploration", "adversarial unauthenticated histories with a pre-populated shared store and long simulated idle time",
          "Histories without an acceptable Logon (ResendRequest ranges, TestRequests, refused/damaged Logons, idle up to 10 intervals) against a store that holds an earlier or parallel session's messages; every message leaving on the unauthenticated connection must be A/5/3 and never a byte-identical copy of another session's traffic.",
-         "quantifier is over inbound histories; local application sends are not part of it."),
+         "quantifier is over inbound histories; the only local calls in the history are Stop() and Logout() of the never-logged-on session (whatever follows is still sent by a peer that has not logged on)."),
  "C08": ("exploration", "simulated clock; send times placed around the heartbeat deadline; gap invariants on arrival times",
-         "Application sends are placed 1 ms before / at / 1 ms after the running deadline, in bursts and after idle stretches of up to 50 periods; exact bounds on the fake clock (N+N/10 upper, N lower), same-instant ties tolerated.",
-         "zero transport latency and no injected delays in this property, so the bounds are exact; N restricted to values where N/20 is unambiguous."),
+         "Application sends are placed 1 ms before / at / 1 ms after the running deadline, in bursts and after idle stretches of up to 50 periods, together with the library's own outbound messages, peer silence that leaves a TestRequest outstanding, and sends that fail (unsaved or refused) and transmit nothing; exact bounds on the fake clock (N+N/10 upper, N lower), same-instant ties tolerated.",
+         "zero transport latency and no injected delays in this property, so the bounds are exact; N from the whole range 1..60. One recorded finding (a send refused by an application handler postpones the Heartbeat), see known_findings.json."),
  "C09": ("exploration", "simulated clock; inbound arrival patterns around both deadlines; timeline oracle",
          "Total silence, silence ending 1 ms before the first deadline, answers at drawn times of the second period (incl. T-1ms) and steady traffic for up to 300 periods; TestRequest and disconnect instants are checked against exact windows on the fake clock.",
          "T = N + max(1, N/20) with N chosen so that integer and real division agree."),
  "C10": ("exploration", "wire log of first transmissions as reference model; generated ResendRequest ranges and Logon sequence gaps",
-         "After a mixed outbound history the peer requests ranges of 9 shapes; retransmissions must equal the recorded first transmissions in the obligatory cases and never leave the range otherwise; Logon gaps must produce a ResendRequest from the first missing number.",
+         "After a mixed outbound history (optionally ending with the library's own TestRequest outstanding, optionally with a neighbour session on the shared store) the peer requests ranges of 9 shapes; retransmissions must equal the recorded first transmissions in the obligatory cases and never leave the range otherwise; Logon gaps must produce a ResendRequest from the first missing number.",
          "requests are settled at one simulated instant so no timer traffic intervenes."),
  "C11": ("exploration", "hostile peer: grammar-mutated and raw byte strings through the real stream, ServeIncoming and the decoder API; no panic, no hang",
          "Byte strings with recomputed framing fields (group-count anomalies, nested counts, prefix/suffix tags, 60 KB values), damaged framing, degenerate strings and random bytes reach the decoder through three entry points with an application that decodes every inbound message; any recovered panic in any task is a violation; a step/wall watchdog bounds every run.",
-         "generative, not coverage-guided; hangs are detected by the watchdog (a hung worker fails the check with exit 2 and its seed/index)."),
+         "generative, not coverage-guided; a run that exceeds the wall-clock watchdog is re-run alone in a fresh process and reported as a violation (class hang) only if it hangs again, otherwise the check exits 2."),
  "C13": ("fault_enumeration", "every termination cause x injection point x seeded schedule; post-conditions and goroutine census after the settle bound",
          "Nine termination causes are injected at six points of a session's life on both roles with traffic in flight and a drawn position in the interleaving; after the settle bound the socket is closed, the serving call has returned, the other side is notified, later sends return and no library goroutine is left (runtime.Stack census).",
          "causes and points are enumerated by sampling (all pairs reached in a quick run, see model_states_visited); interleavings are sampled."),
@@ -46,7 +46,7 @@ TEXT = {
          "TestReqIDs of 1-300 arbitrary non-SOH bytes are sent alone and in back-to-back bursts mixed with other reply-producing traffic, optionally segmented; every request gets exactly one byte-identical echo, in request order and before replies to later messages.",
          "every ID carries a unique suffix so each echo is attributable."),
  "C15": ("exploration", "simulated clock; peer answer time vs. CloseTimeout; counts of Logouts and instant of context cancellation",
-         "Peer Logout, local Logout and local Stop with the peer's answer at the same instant, 1 ms, CloseTimeout-1ms, a drawn time or never, for CloseTimeout in {0,1ms,1s,30s}; Logout counts, EventLogout, IsLogged and the exact instant Session.Context() is cancelled are checked.",
+         "Peer Logout, local Logout and local Stop with the peer's answer at the same instant, 1 ms, CloseTimeout-1ms, a drawn time or never, or from a reactive peer task before the local call has returned, for CloseTimeout in {0,1ms,1s,30s}; Logout counts, EventLogout, IsLogged and the exact instant Session.Context() is cancelled are checked.",
          "exact on the fake clock."),
  "C16": ("exploration", "damaged / out-of-state admin messages injected into histories in five session states; one-Reject / state-unchanged oracle",
          "Every admin type x {wrong CheckSum, wrong BodyLength, non-numeric 108/7/16/34, missing 34, out of state} in {waiting, logged, TestRequest outstanding, logout sent}; exactly one Reject with the right reference, nothing else emitted, IsLogged and contexts unchanged, follow-up traffic served.",
